@@ -4,6 +4,7 @@ import (
 	"fmt"
 	"go/ast"
 	"go/token"
+	"regexp"
 	"sort"
 	"strings"
 )
@@ -445,6 +446,85 @@ func genC15() {
 	}
 	if fd := findFunc("pkg/build/types/types.go", "", "ParseArchitectures"); fd != nil {
 		defSites("parse_archs", fd.Body, "ParseArchitectures")
+	}
+
+	// ---- session 4: the sites that were exploration-only -----------------------------------
+	for _, f := range []struct{ name, rel, recv, fn string }{
+		{"alpine_version", "pkg/apk/apk/implementation.go", "", "parseAlpineVersion"},
+		{"fetch_offline", "pkg/apk/apk/cache.go", "cacheTransport", "fetchOffline"},
+		{"etag", "pkg/apk/apk/cache.go", "", "etagFromResponse"},
+		{"resolve_apk", "pkg/apk/apk/resolveapk.go", "", "ResolveApk"},
+		{"control_value", "pkg/apk/apk/util.go", "", "controlValue"},
+		{"busybox_links", "pkg/build/busybox.go", "", "installBusyboxLinks"},
+		{"env_auth", "pkg/apk/auth/auth.go", "EnvAuth", "AddAuth"},
+		{"remove_label", "internal/cli/lock.go", "", "RemoveLabel"},
+		{"annotations", "internal/cli/publish.go", "", "parseAnnotations"},
+		{"constrain", "pkg/apk/apk/repo.go", "PkgResolver", "constrain"},
+		{"group_by_origin", "pkg/build/layers.go", "", "groupByOriginAndSize"},
+		{"repo_abbr", "pkg/apk/apk/repository.go", "RepositoryWithIndex", "RepoAbbr"},
+		{"user_parse", "pkg/passwd/passwd.go", "UserEntry", "Parse"},
+		{"group_parse", "pkg/passwd/group.go", "GroupEntry", "Parse"},
+		{"index_from_archive", "pkg/apk/apk/apkindex.go", "", "IndexFromArchive"},
+		{"parse_installed", "pkg/apk/apk/installed.go", "", "ParseInstalled"},
+		{"parse_index", "pkg/apk/apk/apkindex.go", "", "ParsePackageIndex"},
+	} {
+		if fd := findFunc(f.rel, f.recv, f.fn); fd != nil {
+			defSites(f.name, fd.Body, f.fn)
+		}
+	}
+	// how a tar member is read where the size the header declares could be used: calls to make(..) and
+	// io.ReadFull in IndexFromArchive (none today: io.ReadAll grows with the bytes actually present)
+	if fd := findFunc("pkg/apk/apk/apkindex.go", "", "IndexFromArchive"); fd != nil {
+		n := 0
+		ast.Inspect(fd, func(m ast.Node) bool {
+			if c, ok := m.(*ast.CallExpr); ok {
+				if t := exprText(c.Fun); t == "make" || t == "io.ReadFull" || strings.HasSuffix(t, ".Grow") {
+					n++
+				}
+			}
+			return true
+		})
+		g.def("index_archive_sized_reads", "nat", fmt.Sprint(n), "calls to make / io.ReadFull / Grow in IndexFromArchive (a buffer sized before the bytes are there)")
+	}
+	for _, rx := range []struct{ name, rel, v string }{
+		{"alpine_repo_groups", "pkg/apk/apk/implementation.go", "repoRE"},
+		{"busybox_semver_groups", "pkg/build/busybox.go", "basicSemverRegex"},
+	} {
+		if lit, ok := regexLiteral(rx.rel, rx.v); ok {
+			re, err := regexp.Compile(lit)
+			if err != nil {
+				fail("%s: %s does not compile: %v", rx.rel, rx.v, err)
+				continue
+			}
+			g.def(rx.name, "nat", fmt.Sprint(re.NumSubexp()), fmt.Sprintf("capture groups of %s %s = %q", rx.rel, rx.v, lit))
+		}
+	}
+	// RemoveLabel's loop: the condition and what the body assigns to the loop variable
+	if fd := findFunc("internal/cli/lock.go", "", "RemoveLabel"); fd != nil {
+		cond, sep, lim := "", "", int64(-1)
+		ast.Inspect(fd, func(m ast.Node) bool {
+			if fs, ok := m.(*ast.ForStmt); ok && fs.Init == nil && fs.Post == nil {
+				cond = norm(fs.Cond)
+				if c, ok := fs.Cond.(*ast.CallExpr); ok && exprText(c.Fun) == "strings.HasPrefix" && len(c.Args) == 2 {
+					if l, ok := strLit(c.Args[1]); ok {
+						cond = "HasPrefix " + l
+					}
+				}
+				ast.Inspect(fs.Body, func(k ast.Node) bool {
+					if c, ok := k.(*ast.CallExpr); ok && exprText(c.Fun) == "strings.SplitN" && len(c.Args) == 3 {
+						if l, ok := strLit(c.Args[1]); ok {
+							sep = l
+						}
+						if v, ok := intLit(c.Args[2]); ok {
+							lim = v
+						}
+					}
+					return true
+				})
+			}
+			return true
+		})
+		g.def("remove_label_loop_shape", "string * string * Z", fmt.Sprintf("(%s, %s, (%d)%%Z)", coqStr(cond), coqStr(sep), lim), "RemoveLabel: loop condition, SplitN separator and limit")
 	}
 	g.write()
 }
